@@ -345,10 +345,18 @@ func c02R3(c *Ctx) {
 			c.verdict(storedAsData, rule, "inputfields-data@"+c.fnName(fn), c.blockPos(li.Header), "the collected stage data becomes the node's Data", "the collected stage data is not stored as the node's Data")
 		}
 	}
-	if fn := c.Fn("(*workflow.executor).Prepare"); fn != nil {
+	if top := c.Fn("(*workflow.executor).Prepare"); top != nil {
 		outF := c.field(pkgWorkflow, "Workflow", "Outputs")
-		li := loopOver(fn, func(v ssa.Value) bool { return outF != nil && loadedField(v) == outF })
-		key := "outputs-loop@" + c.fnName(fn)
+		// the loop may live in a helper extracted from Prepare
+		fn := top
+		var li *loopInfo
+		for _, g := range c.logicalBody(top) {
+			if l := loopOver(g, func(v ssa.Value) bool { return outF != nil && loadedField(v) == outF }); l != nil {
+				fn, li = g, l
+				break
+			}
+		}
+		key := "outputs-loop@" + c.fnName(top)
 		if li == nil {
 			c.undecided(rule, key, c.pos(fn.Pos()), "loop over workflow.Outputs not found")
 		} else {
